@@ -217,7 +217,8 @@ def run(ctx):
     ctx.floor("R-C13.4", "worker loop calling worker_tick", tick_callers, 1)
     for fn, b in tick_callers:
         rf = A.result_flow(fn, b)
-        pb = A.blocks_calling(F, ctx.cg, fn, {R.DART_POISON, R.POISON})
+        # (the call of worker_tick itself is not "a poisoning block": worker_tick poisons only on ITS journal failures)
+        pb = [x for x in A.blocks_calling(F, ctx.cg, fn, {R.DART_POISON, R.POISON}) if x != b]
         ok = False
         detail = "worker_tick's result is not matched on Err"
         if rf.err_blocks:
@@ -227,6 +228,22 @@ def run(ctx):
             esc = [x for x in fn.return_blocks() if x in r]
             ok = not esc
             detail = "Err arm of worker_tick %s" % ("poisons before the worker exits" if ok else "can return without poisoning")
+            if not ok:
+                # a journal failure inside worker_tick may already have poisoned under the journal lock (R-C13.8): then the
+                # loop's Err arm is not what fail-stop rests on (other worker failures are not journal failures)
+                wt = F.fns.get("worker_pool::worker_tick")
+                JIO4 = R.APPEND + (R.PERSIST, R.WRITER + "::pos", R.WRITER + "::rotate", "journal::manager::JournalManager::rotate_journal")
+                sites = [(bb, tt) for bb, tt in wt.calls() if A.is_call_to(tt, JIO4)] if wt else []
+                inner = bool(sites)
+                for bb, tt in sites:
+                    rf2 = A.result_flow(wt, bb)
+                    if not any(cl and (cl in (R.POISON, R.DART_POISON) or ctx.cg.reaches(cl, {R.POISON, R.DART_POISON})) for _, cl in rf2.handlers):
+                        pb2 = A.blocks_calling(F, ctx.cg, wt, {R.POISON, R.DART_POISON})
+                        if not rf2.err_blocks or any(x in A.reach(wt, rf2.err_blocks, avoid=pb2) for x in wt.return_blocks()):
+                            inner = False
+                if inner:
+                    ok = True
+                    detail = "every journal call of worker_tick poisons on failure before it returns (R-C13.8); the loop's Err arm is not needed for journal failures"
         ctx.ob("R-C13.4", fn, "worker-error-poisons", ok, detail, fn.loc(b))
     dd = ctx.fn("<poison::PoisonDart as std::ops::Drop>::drop", "R-C13.4")
     if dd:
@@ -345,3 +362,63 @@ def run(ctx):
                     ok = False
                     detail = "the journal lock is not actually held when the poison flag is checked / the tables are registered (e.g. the Result of get_writer() is dropped instead of unwrapped with `?`)"
         ctx.ob("R-C13.7", fn, "refuses-on-a-poisoned-instance", ok, detail)
+
+    # ---- R-C13.8 the flag is SET while the journal lock is still held.  Writers look at the flag only right after taking
+    # the journal lock; that is sound only if whoever notices a journal failure raises the flag before giving the lock up.
+    # Otherwise a writer slips in between the failure and the poisoning and is acknowledged on top of a failed journal
+    # (a failing worker used to release the lock, log, and only then poison).
+    JIO = R.APPEND + (R.PERSIST, R.WRITER + "::pos", R.WRITER + "::rotate", "journal::manager::JournalManager::rotate_journal")
+    # Database::recover: no handle exists yet, nobody can be writing; its failure fails the open
+    EXEMPT8 = {"db::Database::recover": "open path: no writer can exist before the handle is returned"}
+    n8 = 0
+    for fid, fn in sorted(F.fns.items()):
+        if R.in_journal_module(fid) or fn.kind == "closure" or fid in EXEMPT8:
+            continue
+        gs = R.j_guards(ctx, fn)
+        if not gs:
+            continue
+        idx8 = {}
+        for b, t in fn.calls():
+            if not A.is_call_to(t, JIO):
+                continue
+            g = next((g_ for g_ in gs if A.must_held_at(fn, g_, b)[0]), None)
+            if g is None:
+                continue
+            k = A.cname(t).rsplit("::", 1)[-1]
+            idx8[k] = idx8.get(k, 0) + 1
+            inst = "%s#%d-poisons-before-the-journal-lock-is-released" % (k, idx8[k])
+            n8 += 1
+            ctx.count_sites()
+            rf = A.result_flow(fn, b)
+            kills = A.guard_kills(fn, g)
+            ok, detail = False, "cannot see how a failure of %s is handled" % A.cname(t)
+            hs = [hb for (kind, cl), hb in zip(rf.handlers, rf.handler_blocks) if cl and (cl in (R.POISON, R.DART_POISON) or ctx.cg.reaches(cl, {R.POISON, R.DART_POISON}))]
+            if hs:
+                ok = all(A.must_held_at(fn, g, hb)[0] for hb in hs[:1])
+                detail = "the inspect_err/map_err closure that poisons runs %s" % ("while the journal guard is alive" if ok else "after the journal guard may have been released")
+            elif rf.err_blocks:
+                pb = A.blocks_calling(F, ctx.cg, fn, {R.POISON, R.DART_POISON})
+                r = set()
+                for eb in rf.err_blocks:
+                    r |= A.reach(fn, [eb], avoid=pb)
+                esc = [x for x in r if x in kills or x in fn.return_blocks()]
+                # ... and the guard is still held where the flag is raised (a drop between the call and the match on its
+                # result releases the lock before the Err arm runs)
+                firstp = [x for x in pb if x in A.reach(fn, rf.err_blocks, avoid=[y for y in pb if y != x])]
+                late = [x for x in firstp if not A.must_held_at(fn, g, x)[0]]
+                esc += late
+                ok = not esc
+                detail = ("on the Err edge of %s the flag is raised before the guard is dropped" % A.cname(t)) if ok else \
+                    "a failure of %s (under the journal lock) leaves the function / releases the lock at bb%d without PoisonSignal::poison having run: writers that take the lock next see an un-poisoned database and are acknowledged after the journal failed" % (A.cname(t), sorted(esc)[0])
+            elif rf.swallowed:
+                detail = "result of %s is discarded" % A.cname(t)
+            ctx.ob("R-C13.8", fn, inst, ok, detail, fn.loc(b))
+    ctx.floor("R-C13.8", "journal I/O calls made under the journal lock outside journal::", n8, 14)
+    # Database::persist: the check, too, is made under the lock
+    if dbp:
+        gs = R.j_guards(ctx, dbp)
+        pb = R.call_blocks(dbp, (R.IS_POISONED,))
+        ok = bool(gs) and bool(pb) and all(A.must_held_at(dbp, gs[0], x)[0] for x in pb)
+        ctx.ob("R-C13.8", dbp, "flag-checked-under-the-journal-lock", ok,
+               "Database::persist takes the journal lock, then looks at the flag" if ok else
+               "Database::persist looks at the poison flag without holding the journal lock: a writer can fail and poison in between, and persist then reports success on a failed journal")
